@@ -261,9 +261,8 @@ func init() {
 				return true
 			})
 		}
-		if guard == "" {
-			c.Errf("wire: Server.callTool: the statement replacing a nil Content slice was not found")
-		}
+		// informational (not in facts/wire.expected.json: the engine also serves C02, which this guard
+		// does not concern; the r.call records of the mcp stream are what ties it)
 		c.Fact("wire.calltool_nil_content_guard", guard)
 
 		// the wire version tag
